@@ -423,6 +423,10 @@ class Expander:
         return out
 
     def run(self):
+        # nothing to do when every function of the module belongs to the rules' vocabulary
+        quals = set(self.funcs) | {f"{cn}.{mn}" for cn, ms in self.classes.items() for mn in ms}
+        if quals <= self.known:
+            return 0
         # expand into copies first so that a helper inlined into two callers is always taken in its original form
         originals = {id(d): copy.deepcopy(d) for d in list(self.funcs.values()) + [m for c in self.classes.values() for m in c.values()]}
         todo: List[Tuple[ast.FunctionDef, Optional[str], str]] = [(d, None, n) for n, d in self.funcs.items()]
